@@ -908,7 +908,7 @@ class PageXMLPage(PageXMLTextRegion):
     def get_table_regions(self):
         table_regions = []
         if self.table_regions:
-            table_regions.extend(table_regions)
+            table_regions.extend(self.table_regions)
         for column in self.columns:
             table_regions.extend(column.get_table_regions())
         for tr in self.text_regions:
